@@ -775,8 +775,11 @@ impl GrammarBuilder {
     }
 
     fn check_identifier(&self, name: &ValSpan<String>) -> Result<()> {
+        // The parser skips whitespace and comments around the identifier so
+        // compare what is parsed with what is given. Raw identifiers can't be
+        // a part of the generated names.
         let result = syn::parse_str::<syn::Ident>(name.as_ref());
-        if result.is_err() {
+        if !result.is_ok_and(|ident| ident == name.as_ref()) || name.as_ref().starts_with("r#") {
             err!(
                 format!("Can't use '{}' as a valid Rust identifier.", &name),
                 Some(self.file.clone()),
